@@ -79,6 +79,14 @@ def run_case(params: dict) -> dict:
     if offer_at is not None and rng.random() < 0.5:
         # the call is made right behind the arrival of the peer's offer (k loop steps later)
         op_sync, early_arm = 'offer', False
+    # downloads: the peer refuses the queue request (PeerTransferQueueFailed) some time BEFORE the user call, possibly
+    # while the client's remote-queue attempt is still in flight (FAILED with a negotiation running).  A refusal
+    # that reaches the client once the call has started is a new input from the peer and outside the quantifier
+    # (PAUSED -> FAILED on a peer's refusal is an edge of the documented graph): such runs are not judged.
+    xrng = random.Random(f"{seed}:C06:qf:{params['n']}")
+    qf_at = xrng.choice([None, None, None, 0.05, 0.5, 2.0, 5.5]) if direction == 'download' and offer_at is None else None
+    if qf_at is not None:
+        t_op, op_sync, early_arm = max(t_op, qf_at + xrng.choice([0.05, 0.3, 3.0])), 'instant', False
     tm = TransferMonitor()
     viol: list = []
     obs = {'ops_judged': 0, 'frames_decoded': 0, 'orphan_scans': 0, 'field_freeze_checks': 0, 'ops_refused': 0,
@@ -116,6 +124,8 @@ def run_case(params: dict) -> dict:
 
         def planner(node, host, port, attempt):
             plan = ConnPlan(latency=rng.uniform(0.001, 0.03))
+            if node == 'bob' and qf_state.get('dialing'):
+                return ConnPlan(latency=0.004, seg='whole', seg_lat=(0.006, 0.006))
             if node == 'me' and port in bob_ports:
                 if direct == 'slow':
                     plan.latency = rng.uniform(4.0, 9.0)
@@ -125,6 +135,8 @@ def run_case(params: dict) -> dict:
                     plan.connect = 'refuse'
             return plan
         w.net.planner = planner
+
+        qf_state: dict = {}
 
         async def on_ctp(msg):
             if indirect == 'late':
@@ -234,6 +246,8 @@ def run_case(params: dict) -> dict:
 
         def on_message(event):
             m = event.message
+            if qf_at is not None and type(m).__qualname__.startswith('PeerTransferQueueFailed') and 'processed_t' not in qf_state:
+                qf_state['processed_t'] = w.loop.time()
             v = sync['victim']() if sync['armed'] and op_sync == 'offer' else None
             if v is not None and isinstance(m, PeerTransferRequest.Request) and m.filename == v.remote_path:
                 obs['calls_placed_right_behind_the_offer'] = obs.get('calls_placed_right_behind_the_offer', 0) + 1
@@ -304,6 +318,20 @@ def run_case(params: dict) -> dict:
                 upl.offer_lat = 0.0
                 await upl._serve(None, victim.remote_path)
             w.spawn('bob', offer(), name='vf-unsolicited-offer')
+        if qf_at is not None:
+            from aioslsk.protocol.messages import PeerTransferQueueFailed
+
+            async def refuse_queue():
+                # connection set up beforehand; the frame is written 6 ms (one whole segment) before qf_at
+                qf_state['dialing'] = True
+                try:
+                    link = await peer.dial(me.port, 'P', host=w.net.ip_of('me'))
+                finally:
+                    qf_state['dialing'] = False
+                await asyncio.sleep(max(0.0, t0 + qf_at - 0.006 - w.loop.time()))
+                link.send(PeerTransferQueueFailed.Request(victim.remote_path, 'Banned'))
+                obs['queue_refusals_sent'] = obs.get('queue_refusals_sent', 0) + 1
+            w.spawn('bob', refuse_queue(), name='vf-refuse-queue')
         wait = t0 + t_op - w.loop.time()
         if op_sync == 'offer':
             wait = min(wait, offer_at - 0.001)       # armed before the offer is made
@@ -329,6 +357,7 @@ def run_case(params: dict) -> dict:
         trace.append((round(w.now, 3), 'op', op, stage))
         refused = False
         from ..simnet import NODE
+        t_call = w.loop.time()
         token = NODE.set('me')      # inline (no task of its own): the call starts in this very loop step
         try:
             await getattr(mgr, op)(victim)
@@ -357,6 +386,11 @@ def run_case(params: dict) -> dict:
         await ft
         await asyncio.sleep(300.0)
         await settle(0.0)
+        if qf_at is not None and not refused and qf_state.get('processed_t', float('inf')) >= t_call:
+            obs['queue_refusal_not_before_the_call'] = obs.get('queue_refusal_not_before_the_call', 0) + 1
+            refused = True          # not judged
+        elif qf_at is not None and not refused:
+            obs['queue_refusal_before_the_call'] = obs.get('queue_refusal_before_the_call', 0) + 1
         if not refused:
             obs['ops_judged'] += 1
             # (a) frames naming the file, written after the call returned
@@ -433,7 +467,7 @@ def run_case(params: dict) -> dict:
     st = r.get('stage') or {}
     if obs['ops_judged'] and (st.get('queue_task') or st.get('transfer_task') or st.get('frames_so_far')):
         res['csigs'].append(f"{direction}|{op}|{st.get('state')}|{st.get('queue_task')}|{st.get('transfer_task')}|"
-                            f"{direct}|{indirect}|{len(forced)}|{n_transfers}|{op_sync}|{early_arm}|{offer_at}")
+                            f"{direct}|{indirect}|{len(forced)}|{n_transfers}|{op_sync}|{early_arm}|{offer_at}|{qf_at}")
     runner.add_cover(res, 'stages_at_call', f"{direction}:{st.get('state')}:q{int(bool(st.get('queue_task')))}t{int(bool(st.get('transfer_task')))}")
     runner.add_cover(res, 'ops', op)
     runner.add_cover(res, 'op_sync', op_sync)
